@@ -31,28 +31,59 @@ func makeBoxes(tier string) []*Box {
 		}
 		return q
 	}
+	core := kinds(evCampaign, evPropose, evHeartbeat, evCrash, evRestart, evCompact)
 	var bs []*Box
 	bs = append(bs, &Box{
-		ID: "A1", Mode: "A", What: "every interleaving of one/two elections and one replication round, one message loss",
+		ID: "A1", Mode: "A", What: "every interleaving of up to two elections and one replication round with one message loss",
 		Cfg:   cfgPlain(3, false),
 		Bud:   Budget{MaxTerm: 3, Proposals: 1, Drops: 1},
-		Depth: pick(9, 11), Kinds: kinds(evCampaign, evPropose), Share: 30,
+		Depth: pick(9, 11), Kinds: kinds(evCampaign, evPropose), Share: pick(12, 30),
 	})
 	bs = append(bs, &Box{
-		ID: "B1", Mode: "B", What: "deep runs: elections, proposals, heartbeats, crash/restart, compaction; deviations from FIFO delivery bounded",
-		Cfg:   cfgPlain(3, false),
-		Bud:   Budget{MaxTerm: 5, Proposals: 3, Drops: 9, Dups: 9, Crashes: 2, Heartbeats: 2, Compacts: 1},
-		Depth: 400, MaxDev: pick(1, 2),
-		Kinds: kinds(evCampaign, evPropose, evHeartbeat, evCrash, evRestart, evCompact),
-		Share: 40,
+		ID: "A2", Mode: "A", What: "same with PreVote+CheckQuorum: pre-vote rounds, leases, quorum checks on ticks",
+		Cfg:   cfgPVCQ(3, false),
+		Bud:   Budget{MaxTerm: 3, Proposals: 1, Drops: 1, Heartbeats: 2, Expires: 2},
+		Depth: pick(8, 10), Kinds: kinds(evCampaign, evPropose, evHeartbeat, evExpire), Share: pick(10, 20),
 	})
+	bs = append(bs, &Box{
+		ID: "B1", Mode: "B", What: "deep runs: elections, proposals, heartbeats, crash/restart, compaction + snapshot transfer",
+		Cfg:   cfgPlain(3, false),
+		Bud:   Budget{MaxTerm: uint64(pick(4, 5)), Proposals: pick(2, 3), Drops: 9, Dups: 9, Crashes: pick(1, 2), Heartbeats: pick(1, 2), Compacts: 1},
+		Depth: 400, MaxDev: pick(1, 2), Kinds: core, Share: pick(20, 50),
+	})
+	bs = append(bs, &Box{
+		ID: "B2", Mode: "B", What: "membership changes: add node 4 (voter / learner then promote), remove node 3, joint consensus with implicit and explicit leave, leadership transfer",
+		Cfg:   cfgPlain(3, true),
+		Bud:   Budget{MaxTerm: uint64(pick(3, 4)), Proposals: 1, Drops: 9, Dups: 9, Crashes: pick(0, 1), ConfChanges: 2, Transfers: 1, Compacts: 1},
+		Depth: 400, MaxDev: pick(1, 2), Kinds: kinds(evCampaign, evPropose, evCrash, evRestart, evCompact, evConf, evTransfer), Share: pick(15, 40),
+	})
+	bs = append(bs, &Box{
+		ID: "B3", Mode: "B", What: "one entry per MsgApp (MaxSizePerMsg=0): entries of earlier terms are acknowledged separately from the leader's own (Figure-8 family), many crashes",
+		Cfg:   cfgOnePerMsg(3, false),
+		Bud:   Budget{MaxTerm: 5, Proposals: 1, Drops: 9, Dups: 0, Crashes: pick(3, 5)},
+		Depth: 400, MaxDev: pick(1, 2), Kinds: kinds(evCampaign, evPropose, evCrash, evRestart), Share: pick(15, 50),
+	})
+	bs = append(bs, &Box{
+		ID: "B4", Mode: "B", What: "PreVote+CheckQuorum deep runs: lease expiry, quorum-check step-down, crash/restart",
+		Cfg:   cfgPVCQ(3, false),
+		Bud:   Budget{MaxTerm: 4, Proposals: pick(1, 2), Drops: 9, Dups: 9, Crashes: 1, Heartbeats: pick(2, 3), Expires: pick(2, 3)},
+		Depth: 400, MaxDev: pick(1, 2), Kinds: kinds(evCampaign, evPropose, evHeartbeat, evCrash, evRestart, evExpire), Share: pick(10, 30),
+	})
+	if thorough {
+		bs = append(bs, &Box{
+			ID: "B5", Mode: "B", What: "five members",
+			Cfg:   cfgPlain(5, false),
+			Bud:   Budget{MaxTerm: 4, Proposals: 1, Drops: 9, Dups: 9, Crashes: 2, Heartbeats: 1},
+			Depth: 400, MaxDev: 2, Kinds: kinds(evCampaign, evPropose, evHeartbeat, evCrash, evRestart), Share: 40,
+		})
+	}
 	if os.Getenv("RAFTMC_TRIAL") != "" {
 		// development aid: RAFTMC_TRIAL="T P crashes hb compacts maxdev"
 		var t, p, c, h, k, d int
 		fmt.Sscan(os.Getenv("RAFTMC_TRIAL"), &t, &p, &c, &h, &k, &d)
 		bs = append(bs, &Box{ID: "T", Mode: "B", What: "trial", Cfg: cfgPlain(3, false),
 			Bud:   Budget{MaxTerm: uint64(t), Proposals: p, Drops: 9, Dups: 9, Crashes: c, Heartbeats: h, Compacts: k},
-			Depth: 400, MaxDev: d, Kinds: kinds(evCampaign, evPropose, evHeartbeat, evCrash, evRestart, evCompact), Share: 40})
+			Depth: 400, MaxDev: d, Kinds: core, Share: 40})
 	}
 	return bs
 }
